@@ -65,6 +65,7 @@ pub fn new_src(id: Id, script: &Script, k: K, sh: Rc<WrapShared>, cb_drop: Rc<Ce
         reenabled: false,
         rereg_count_expected: 0,
         removed_in_own_cb: false,
+        errored_this_dispatch: false,
         exp: [0; 3],
     }
 }
